@@ -25,6 +25,8 @@ pub struct RustDocument {
     pub(crate) soap_services: Vec<SoapService>,
     /// names currently being resolved through the XML tree; guards against reference cycles
     pub(crate) resolving: Vec<String>,
+    /// the default namespace (`xmlns="..."`) in scope: what an unprefixed reference denotes
+    pub(crate) default_namespace: Option<Rc<Namespace>>,
 }
 
 impl RustDocument {
@@ -72,6 +74,7 @@ impl RustDocument {
             soap_bindings: Vec::new(),
             soap_services: Vec::new(),
             resolving: Vec::new(),
+            default_namespace: None,
         }
     }
 
@@ -108,6 +111,28 @@ impl RustDocument {
             .insert(original_abbreviation.to_string(), ns.clone());
 
         self.namespaces.push(ns);
+    }
+
+    /// Records the default namespace declaration (`xmlns="..."`) met on a node.
+    pub fn set_default_namespace(&mut self, url: &str) {
+        if url.is_empty() || WELL_KNOWN_NAMESPACES.contains(&url) {
+            return;
+        }
+
+        if let Some(existing) = self.namespaces.iter().find(|ns| ns.namespace == url) {
+            self.default_namespace = Some(existing.clone());
+            return;
+        }
+
+        let abbreviation = make_abbreviated_namespace(url, &self.namespaces);
+        let rust_mod_name = create_mod_name_for_namespace(&abbreviation);
+        let ns = Rc::new(Namespace {
+            abbreviation,
+            namespace: url.to_string(),
+            rust_mod_name,
+        });
+        self.namespaces.push(ns.clone());
+        self.default_namespace = Some(ns);
     }
 
     pub fn find_module_name_from_namespace_reference(&self, abbreviation: &str) -> Option<&str> {
